@@ -477,7 +477,7 @@ def dynamic_partial_sum_product(
                 )
                 if new_plates == leaf:
                     raise ValueError("intractable!")
-                f = f.reduce(prod_op, leaf - new_plates - markov_prod_vars)
+                f = f.reduce(prod_op, (leaf - new_plates - markov_prod_vars) & prod_vars)
                 ordinal_to_factors[new_plates].append(f)
 
     return results
@@ -594,7 +594,7 @@ def modified_partial_sum_product(
                 )
                 if new_plates == leaf:
                     raise ValueError("intractable!")
-                f = f.reduce(prod_op, leaf - new_plates - markov_prod_vars)
+                f = f.reduce(prod_op, (leaf - new_plates - markov_prod_vars) & prod_vars)
                 ordinal_to_factors[new_plates].append(f)
 
     return results
